@@ -11,6 +11,15 @@ E3 = "bounded exhaustive enumeration of inputs/programs/configurations executed 
 
 # pid -> (technique, level text, level note, design ref)
 CHECKS = {
+    "C11": (
+        E1 + " (exhaustive event histories at quiescence)",
+        "The real PowerManagingActor on the virtual loop (proposals, subscriptions, results through its channels; bounds through a "
+        "harness stub pool): every history to depth 4-5 over ~18 events (regular / operating-point proposals, bounds widen / shrink / "
+        "shift / unavailable, Success / PartialFailure / Error, expiry) from warm and cold starts; every request sent equals the sum "
+        "of the regular and operating-point targets in the latest reports and lies within the latest inclusion bounds.",
+        "Events injected at quiescence (handlers cannot interleave: Broadcast.send never suspends); sent-only oracle as the property is worded.",
+        "DESIGN.md §3 C11",
+    ),
     "C06": (
         E1,
         "Weighted-sum formula over 2-3 streams whose values encode their timestamps; every interleaving of per-stream deliveries "
